@@ -15,8 +15,10 @@ import (
 // Eligible: an unexported function of the cone without declared postconditions whose last result is an error or a
 // bool (the success flag) and that has at least one int result. Candidates, all conditioned on success
 // (err == nil / ok == true), for every int result r:
-//     r >= 0;   r <= len(q) for every bytes-like parameter q;   r <= len(p.f) for every bytes-like field path f
-//     (depth <= 2) of a struct parameter p (the receiver included);   r <= r' for every other int result r'.
+//
+//	r >= 0;   r <= len(q) for every bytes-like parameter q;   r <= len(p.f) for every bytes-like field path f
+//	(depth <= 2) of a struct parameter p (the receiver included);   r <= r' for every other int result r'.
+//
 // Candidates are assumed at the calls (recursive ones too) and proved at every successful return of the candidate's
 // own body; a candidate that cannot be proved under the candidates still standing is dropped, until nothing changes
 // (Houdini greatest fixpoint - sound for partial correctness). What survives is a contract like any other: used
